@@ -147,11 +147,29 @@ theorem EvoW.validateKeepalive (a : Agent) (now : Nat) :
   · exact h.keepalive now
   · exact h
 
+theorem EvoW.autoRenom {a b : Agent} (w : EvoW a b) (now : Nat) : EvoW a (b.autoRenom now).1 := by
+  cases w with
+  | evo e => exact .evo (e.r_same (Same.autoRenom b now))
+  | wf w => rw [IceProofs.Auto.autoRenom_wiped b now w.wiped.1 w.wiped.2.2.2.1]; exact .wf w
+
+/-- the controlling selector's shape "validate, then keepalive and the automatic renomination if a pair was selected" -/
+theorem EvoW.validateKeepaliveAuto (a : Agent) (now : Nat) :
+    EvoW a (let (a, o, ok) := a.validateSelected now
+            if ok then let (a, o') := a.keepalive now; let (a, o'') := a.autoRenom now; (a, o ++ o' ++ o'')
+            else (a, o)).1 := by
+  have h := EvoW.validateSelected a now
+  generalize a.validateSelected now = vs at h
+  obtain ⟨b, o, ok⟩ := vs
+  simp only [] at h ⊢
+  split
+  · exact (h.keepalive now).autoRenom now
+  · exact h
+
 theorem EvoW.contactCandidates (a : Agent) (now : Nat) : EvoW a (a.contactCandidates now).1 := by
   unfold Agent.contactCandidates
   split
   · split
-    · exact EvoW.validateKeepalive a now
+    · exact EvoW.validateKeepaliveAuto a now
     · split
       · exact .evo (Same.nominate a now _).evo
       · split
